@@ -37,6 +37,16 @@ def run(ctx):
             cases.append((k, h))
             found += 1
     ctx.note("signatures with a leading zero byte in r or s included: %d (from %d scanned)" % (found, tries))
+    # (key, digest) pairs whose RFC 6979 nonce has one or two leading zero BYTES (1 in 256 / 65536 of all pairs; a generator loop that
+    # mishandles short candidates shows only there), found by scanning digests with the independent implementation
+    foundk, triesk = 0, 0
+    while foundk < (4 if not thorough else 12) and triesk < (4000 if not thorough else 40000):
+        triesk += 1
+        k_, h_ = rng.choice(keys), pyref.keccak256(b"C05 nonce scan %d %d" % (ctx.seed, triesk))
+        if pyref.rfc6979_k(k_, h_) < (1 << 248):
+            cases.append((k_, h_))
+            foundk += 1
+    ctx.note("RFC 6979 nonces with a leading zero byte included: %d (from %d scanned)" % (foundk, triesk))
     # keys whose 32 bytes are all printable ASCII ("brain wallet" style), digests that are well-known constants
     import hashlib as _hl
     text_keys = [b"correct horse battery staple 123", b"A" * 32, b" " * 32, b"~" * 32, b"0123456789abcdef0123456789abcdef", b"password" * 4]
